@@ -41,6 +41,10 @@ def parseUrlFields : List String → Option Url
     let target ← parseStr target
     pure { origin := { scheme := sch, host := host, port := port }, hasHost := parseBool hh,
            cred := cred, hostHdr := hostHdr, target := target }
+  | [sch, host, port, hh, cred, hostHdr, target, sp] => do
+    let u ← parseUrlFields [sch, host, port, hh, cred, hostHdr, target]
+    let sp ← sp.toNat?
+    pure { u with origin := { u.origin with spelled := sp } }
   | _ => none
 
 def parseBody (s : String) : Option (Option Body) :=
